@@ -40,6 +40,25 @@ struct Conn {
     key_gen: u16,
     /// change points: first 1-RTT packet number tapped at each generation
     tx_gen: Vec<(u64, u16)>,
+    /// undecryptable genuine packets of the receiver's own generation, waiting for the next
+    /// key update to tell who initiated it (see `Held`)
+    held: Vec<Held>,
+    last_evt_t: u64,
+}
+
+/// A genuine 1-RTT packet that failed to decrypt although sender and receiver were at the same
+/// key generation when it was tapped. The sender may have *initiated* the next update with it
+/// (KeySet::encryption_phase switches keys at encryption time, the KeyUpdate event only comes
+/// with the peer's answer), and a receiver that still retains the previous read keys cannot
+/// open such packets yet (RFC 9001 6.5 warns about exactly this). Who initiated is visible
+/// afterwards: the responder rotates first. The verdict is therefore deferred to the
+/// receiver's next KeyUpdate event.
+struct Held {
+    t: u64,
+    gen: u16,
+    src: (EpId, u64),
+    what: String,
+    detail: vq_util::Value,
 }
 
 impl Conn {
@@ -61,6 +80,8 @@ pub struct C08 {
     /// sender of the genuine packets above: (dst ep, at, space, pn) -> (src ep, src conn)
     delivered_src: HashMap<(EpId, u64, u64), (EpId, u64)>,
     net_corrupts: bool,
+    /// the scenario runs with tiny AEAD limits (hook H1): endpoints initiate key updates
+    limit_driven_key_updates: bool,
     enforce_promptness: bool,
     /// receive buffer size of each endpoint's socket: larger datagrams are truncated there
     max_mtu: Vec<u16>,
@@ -79,6 +100,7 @@ impl C08 {
             delivered: HashMap::new(),
             delivered_src: HashMap::new(),
             net_corrupts: p.net.phases.iter().any(|p| p.corrupt > 0.0 || p.truncate > 0.0),
+            limit_driven_key_updates: p.knob("c15_interval") != 0,
             enforce_promptness: p.knob("c08_promptness") != 0 || std::env::var("VQ_C08_PROMPT").is_ok(),
             max_mtu: std::iter::once(p.server.max_mtu)
                 .chain(p.clients.iter().map(|c| c.cfg.max_mtu))
@@ -268,7 +290,42 @@ impl Monitor for C08 {
             }
             _ => Vec::new(),
         };
+        // (d) candidates tapped while their sender was at the receiver's own generation
+        let same_gen: Vec<(u64, (EpId, u64))> = match e {
+            Evt::PacketDropped { decrypt_failed: true, .. } => {
+                let my_gen = self.conns.get(&(ep, conn)).map(|c| c.key_gen).unwrap_or(0);
+                self.delivered
+                    .get(&(ep, t))
+                    .map(|(pkts, _)| {
+                        pkts.iter()
+                            .filter(|(s, _, _)| *s == Space::App)
+                            .filter_map(|(_, pn, _)| {
+                                let src = *self.delivered_src.get(&(ep, t, *pn))?;
+                                (self.conns.get(&src)?.tx_gen_of(*pn) == my_gen).then_some((*pn, src))
+                            })
+                            .collect()
+                    })
+                    .unwrap_or_default()
+            }
+            _ => Vec::new(),
+        };
+        // the receiver rotates: held packets of the generation before are resolved now
+        if let Evt::KeyUpdate { generation } = e {
+            let held = self.conns.get_mut(&(ep, conn)).map(|c| std::mem::take(&mut c.held)).unwrap_or_default();
+            for h in held {
+                let sender_gen = self.conns.get(&h.src).map(|c| c.key_gen);
+                if h.gen + 1 == *generation && sender_gen == Some(h.gen) {
+                    // the receiver answers an update its peer initiated: the held packets were
+                    // protected with the next keys while the previous ones were still retained
+                    cx.summary.count("c08.undecryptable_next_key_generation", 1);
+                    cx.feature("next_generation_packet_during_retention");
+                } else {
+                    cx.violate("C08", "genuine-packet-undecryptable", h.what, h.detail);
+                }
+            }
+        }
         let c = self.conns.entry((ep, conn)).or_default();
+        c.last_evt_t = t;
         match e {
             Evt::Started { remote_port, .. } => {
                 c.remote_ports.insert(*remote_port);
@@ -368,14 +425,24 @@ impl Monitor for C08 {
                             .unwrap_or(false);
                         if relevant && !discarded && !c.closed {
                             let pk = pkts.clone();
-                            cx.violate(
-                                "C08",
-                                "genuine-packet-undecryptable",
-                                format!(
-                                    "ep{ep} c{conn}: a genuine, intact datagram delivered at {t}us (not yet authenticated packets of that instant: {pk:?}) was dropped: {reason} (receiver reconstructed {space_pn:?})"
-                                ),
-                                json!({"ep": ep, "conn": conn, "t": t, "sent": format!("{pk:?}"), "reconstructed": format!("{space_pn:?}")}),
+                            let what = format!(
+                                "ep{ep} c{conn}: a genuine, intact datagram delivered at {t}us (not yet authenticated packets of that instant: {pk:?}) was dropped: {reason} (receiver reconstructed {space_pn:?})"
                             );
+                            let detail = json!({"ep": ep, "conn": conn, "t": t, "sent": format!("{pk:?}"), "reconstructed": format!("{space_pn:?}")});
+                            // every candidate is a 1-RTT packet of the receiver's own generation:
+                            // possibly the first packets of an update the sender initiates
+                            let src = same_gen.first().map(|x| x.1);
+                            let all_same_gen = !pk.is_empty()
+                                && pk.iter().all(|(s, pn, _)| *s == Space::App && same_gen.iter().any(|(q, sr)| q == pn && Some(*sr) == src));
+                            match src {
+                                Some(src) if all_same_gen && self.limit_driven_key_updates => {
+                                    cx.summary.count("c08.undecryptable_held_until_next_key_update", 1);
+                                    if c.held.len() < 4096 {
+                                        c.held.push(Held { t, gen: c.key_gen, src, what, detail });
+                                    }
+                                }
+                                _ => cx.violate("C08", "genuine-packet-undecryptable", what, detail),
+                            }
                         }
                     }
                 }
@@ -466,5 +533,21 @@ impl Monitor for C08 {
             }
         }
         cx.summary.count("c08.acks_owed_at_end", owed);
+        // held packets whose receiver never rotated again: if it lived on for more than 5 s
+        // (virtual) nothing explains them; if the run or the connection ended before, the
+        // question stays open and is only counted
+        let mut late = Vec::new();
+        for c in self.conns.values_mut() {
+            for h in std::mem::take(&mut c.held) {
+                if c.last_evt_t.saturating_sub(h.t) >= 5_000_000 {
+                    late.push(h);
+                } else {
+                    cx.summary.count("c08.undecryptable_unresolved_at_end", 1);
+                }
+            }
+        }
+        for h in late {
+            cx.violate("C08", "genuine-packet-undecryptable", format!("{} - and no key update followed within 5 s", h.what), h.detail);
+        }
     }
 }
